@@ -541,6 +541,15 @@ class World:
             if fired:
                 ctx.fault("read_" + ff["kind"])
                 ctx.probe("dataset_read_repeated_after_transient_fault")
+                # the repetition may fail as well (dclab gives up a basin whose access failed): it must not deliver wrong data
+                try:
+                    with warnings.catch_warnings():
+                        warnings.simplefilter("ignore")
+                        np.asarray(ds[f][:])
+                except Exception:
+                    ctx.probe("repetition_after_fault_failed")
+                    ctx.log("c", f"ds_read {which} {f} repetition failed")
+                    return
         with warnings.catch_warnings():
             warnings.simplefilter("ignore")
             with ctx.sut("C17.dataset.read", sig={"which": which}):
